@@ -58,9 +58,16 @@ Data sizes : the writer's durability calls must not depend on HOW MUCH is writte
              in-process tracer records the bytes arrow has put into the temp file at every fsync of it (not only at close), so
              a footer written after an incremental fsync is a separate, later write.
              Coq: Model/DurableChunks.v replaces the single Write of the regenerated data-writer sequence by an arbitrary list
-             of bursts with optional incremental fsyncs; C16_chunked_each_publish / C16_chunked_disciplined hold for EVERY such
-             list; C16_unsynced_tail_rejected / C16_nofinal_rejected / C16_unsynced_tail_torn: no fsync after the last write =>
-             rejected, and the drop-all power loss leaves a torn file.  translator/gen_durable.py: a durability call in any
+             of bursts with optional incremental fsyncs; C16_chunked_each_publish holds for EVERY such list.  Second audit:
+             Model/DurableChunks.v burst_of tr' tr (ANY Write of a trace replaced by bursts of the same content, optional
+             incremental fsyncs) + Proofs/DurableBurstsProofs.v: C16_burst_refines (the discipline accepts every burst refinement
+             of a trace it accepts and ends in a ghost state equal on every final name / the referenced set / the open temps:
+             the frame the first C16_chunked_disciplined lacked), C16_chunked_is_burst_of, and the HEADLINE theorems lifted:
+             C16_durable_prefix_bursts / C16_acked_durable_bursts = C16_durable_prefix / C16_acked_durable over every burst
+             refinement of trace_of ops.  Not lifted: a failure BETWEEN two bursts of a failing publish (OFail keeps failed_of's
+             one-Write shape; such a file is never renamed).  C16_unsynced_tail_rejected (now with ANY calls other than an
+             fsync / unlink of the file between the last Write and the Rename) / C16_nofinal_rejected / C16_unsynced_tail_torn:
+             no fsync after the last write => rejected, and the drop-all power loss leaves a torn file.  translator/gen_durable.py: a durability call in any
              DataFileWriter method other than open / close, a syncing helper, or a durability call under a condition other than
              the pinned ones (backend, writer opened) is Unsupported (fail closed); gen_data_writer_burst.
 Bounded    : every in-process run happens in a worker subprocess (harness/lib/c16_worker.py) with a wall-clock
@@ -80,7 +87,8 @@ from harness.lib import coqbuild, ostrace, powerloss, c16_driver, c16_worker, c1
 
 LEVEL = "proof"
 THEOREMS = ["C16_durable_prefix", "C16_acked_durable", "C16_each_publish", "C16_publish_data_same", "C16_disciplined_safe",
-            "C16_chunked_each_publish", "C16_chunked_disciplined", "C16_unsynced_tail_rejected", "C16_nofinal_rejected",
+            "C16_chunked_each_publish", "C16_chunked_is_burst_of", "C16_burst_refines", "C16_chunked_disciplined",
+            "C16_durable_prefix_bursts", "C16_acked_durable_bursts", "C16_unsynced_tail_rejected", "C16_nofinal_rejected",
             "C16_unsynced_tail_torn"]
 REQ = ["DS.Model.Durable"]
 PRE = "Open Scope N_scope.\n"
@@ -98,9 +106,13 @@ MANIFEST_ENTRY = {
                   "(EIO or short write) injected at each durability call, files and directories alike; data sizes are a dimension "
                   "of the traces: appends of k*c-1, k*c, k*c+1 rows for every integer literal c of the writer modules through every "
                   "public write path (append_records, append_data, append_pandas when pandas is present, caller-driven DataFileWriter "
-                  "+ append_files), and C16_chunked_each_publish / C16_chunked_disciplined / C16_unsynced_tail_rejected / "
+                  "+ append_files), and C16_chunked_each_publish / C16_unsynced_tail_rejected / "
                   "C16_nofinal_rejected / C16_unsynced_tail_torn cover a data file written in ANY number of bursts with ANY pattern of "
-                  "incremental fsyncs (whole or absent at every prefix; no fsync after the last write => rejected and torn)",
+                  "incremental fsyncs (whole or absent at every prefix; no fsync after the last write, whatever other calls lie "
+                  "between it and the rename => rejected and torn); C16_durable_prefix_bursts / C16_acked_durable_bursts are the two "
+                  "headline theorems over EVERY burst refinement of the history's trace (any Write of any file split into bursts "
+                  "with optional incremental fsyncs; C16_burst_refines / C16_chunked_is_burst_of / C16_chunked_disciplined give the "
+                  "simulation with its frame)",
     "level_note": "trusted: Coq kernel; the POSIX-strict power-loss model (fsync = barrier for one inode, directory fsync = "
                   "barrier for that directory's entries); translator/gen_durable.py; the tracers and the canonicaliser; "
                   "directory creation (makedirs) and the table root's own entry are outside the theorems; OS failures INSIDE "
